@@ -73,3 +73,87 @@ Proof. unfold sat_rows. apply dedup_tuples_NoDup. Qed.
 
 Lemma count_value vals : agg_value ACount vals = Some (VI64 (Z.of_nat (length vals))).
 Proof. reflexivity. Qed.
+
+(* ---- count is exact: for a head `h(groups..., count<x>)` every output row is its group key followed
+   by the number of distinct satisfying valuations in that group *)
+Lemma agg_go_plain xs grp gs : forallb (fun h => negb (is_agg h)) gs = true -> forall rest key t,
+  agg_go xs grp (gs ++ rest) key = Some t ->
+  exists k1 k2 t2, key = k1 ++ k2 /\ length k1 = length gs /\ agg_go xs grp rest k2 = Some t2 /\ t = k1 ++ t2.
+Proof.
+  induction gs as [|g gs IH]; intros Hg rest key t H; cbn in *.
+  - exists [], key, t. repeat split; auto.
+  - apply andb_true_iff in Hg. destruct Hg as [Hg1 Hg2].
+    destruct g as [x|v|f x]; cbn in Hg1; try discriminate.
+    + destruct key as [|k key]; [discriminate|].
+      destruct (agg_go xs grp (gs ++ rest) key) as [t0|] eqn:E; [|discriminate]. inversion H; subst.
+      destruct (IH Hg2 rest key t0 E) as [k1 [k2 [t2 [-> [Hl [H2 ->]]]]]].
+      exists (k :: k1), k2, t2. repeat split; cbn; auto.
+    + destruct key as [|k key]; [discriminate|].
+      destruct (agg_go xs grp (gs ++ rest) key) as [t0|] eqn:E; [|discriminate]. inversion H; subst.
+      destruct (IH Hg2 rest key t0 E) as [k1 [k2 [t2 [-> [Hl [H2 ->]]]]]].
+      exists (k :: k1), k2, t2. repeat split; cbn; auto.
+Qed.
+
+Lemma row_of_length th xs row : row_of th xs = Some row -> length row = length xs.
+Proof.
+  unfold row_of. intros H. apply inst_head_shape in H. destruct H as [H _]. rewrite H, map_length. reflexivity.
+Qed.
+
+Lemma sat_rows_length d c row : In row (sat_rows d c) ->
+  length row = length (nodupN (body_vars (freshen_body 0 (cbody c)))).
+Proof.
+  unfold sat_rows. intros H. apply (proj1 (dedup_tuples_In _ _)) in H. apply in_flat_map in H.
+  destruct H as [th [_ H]]. destruct (row_of th _) as [r|] eqn:E; cbn in H; [|destruct H].
+  destruct H as [<-|[]]. eapply row_of_length; eauto.
+Qed.
+
+Lemma index_of_lt x xs i : index_of x xs = Some i -> (i < length xs)%nat.
+Proof.
+  revert i; induction xs as [|y xs IH]; intros i H; cbn in H; [discriminate|].
+  destruct (N.eqb x y); [inversion H; cbn; lia|].
+  destruct (index_of x xs) as [j|]; [|discriminate]. inversion H; subst. cbn. specialize (IH j eq_refl). lia.
+Qed.
+
+Lemma count_column (grp : list tuple) i n : (forall row, In row grp -> length row = n) -> (i < n)%nat ->
+  length (flat_map (fun row => opt_to_list (nth_error row i)) grp) = length grp.
+Proof.
+  intros Hl Hi. induction grp as [|row grp IH]; cbn; [reflexivity|].
+  rewrite app_length, IH; [|intros r Hr; apply Hl; right; exact Hr].
+  assert (length row = n) by (apply Hl; left; reflexivity).
+  destruct (nth_error row i) eqn:E; [reflexivity|]. apply nth_error_None in E. lia.
+Qed.
+
+Lemma count_exact d c gs x : cargs c = gs ++ [HAgg ACount x] ->
+  forallb (fun h => negb (is_agg h)) gs = true ->
+  forall t, In t (eval_clause_agg d c) ->
+  exists k, length k = length gs /\
+    t = k ++ [VI64 (Z.of_nat (length (filter (fun row =>
+                 match group_key (nodupN (body_vars (freshen_body 0 (cbody c)))) (cargs c) row with
+                 | Some k' => tuple_eqb k' k | None => false end) (sat_rows d c))))].
+Proof.
+  intros Hc Hg t Ht. unfold eval_clause_agg in Ht.
+  set (xs := nodupN (body_vars (freshen_body 0 (cbody c)))) in *.
+  apply in_flat_map in Ht. destruct Ht as [key [Hk Ht]].
+  destruct (agg_head xs (sat_rows d c) key (cargs c)) as [t0|] eqn:E; cbn in Ht; [|destruct Ht].
+  destruct Ht as [<-|[]]. unfold agg_head in E. rewrite Hc in E.
+  set (grp := filter _ (sat_rows d c)) in E.
+  destruct (agg_go_plain xs grp gs Hg [HAgg ACount x] key t0 E) as [k1 [k2 [t2 [Hkey [Hl [H2 Ht0]]]]]].
+  cbn in H2. destruct (index_of x xs) as [i|] eqn:Ei; [|discriminate].
+  destruct k2 as [|z k2]; cbn in H2.
+  - inversion H2; subst t2. rewrite app_nil_r in Hkey. subst k1. exists key. split; [exact Hl|].
+    subst t0. f_equal. f_equal. f_equal. f_equal.
+    unfold grp. rewrite <- Hc.
+    apply (count_column _ i (length xs)); [|eapply index_of_lt; eauto].
+    intros row Hr. apply filter_In in Hr. destruct Hr as [Hr _]. apply sat_rows_length in Hr. exact Hr.
+  - (* the key is longer than the plain part of the head: impossible, group keys have one value per plain head term *)
+    exfalso.
+    assert (Hkl : length key = length (filter (fun h => negb (is_agg h)) (cargs c))).
+    { apply (proj1 (dedup_tuples_In _ _)) in Hk. apply in_flat_map in Hk. destruct Hk as [row [_ Hk]].
+      destruct (group_key xs (cargs c) row) as [k0|] eqn:Eg; cbn in Hk; [|destruct Hk].
+      destruct Hk as [<-|[]]. eapply group_key_len; eauto. }
+    rewrite Hc, filter_app in Hkl. cbn in Hkl. rewrite app_nil_r in Hkl.
+    assert (Hf : filter (fun h => negb (is_agg h)) gs = gs).
+    { clear - Hg. induction gs as [|g gs IH]; cbn in *; [reflexivity|].
+      apply andb_true_iff in Hg. destruct Hg as [H1 H2]. rewrite H1, (IH H2). reflexivity. }
+    rewrite Hf, Hkey, app_length in Hkl. cbn in Hkl. lia.
+Qed.
